@@ -10,6 +10,12 @@ open Sys Entry
 the configured period is ≤ 0 (unset, "500ms" and "-5s" all convert to ≤ 0 seconds). -/
 theorem facts_ok : Facts.defaultHitForPassSeconds = 300 ∧ Facts.hitForPassGuard = "ttl<=0" := by decide
 
+/-- Obligation on the extracted facts (upstream/upstream.go): the transport of an upstream sets no
+limit on concurrent connections per host — `net/http` would otherwise queue the passes of a burst
+behind one another although the cache layer forwarded them independently. -/
+theorem facts_passes_not_capped :
+    (Facts.transportFields.contains "MaxConnsPerHost") = false := by decide
+
 /-- FULL STATEMENT (during the period).  While the marker is valid every lookup returns
 "pass" at once: the caller is not registered as a waiter, nothing is served from cache, and
 the entry is left exactly as it was — so any number of such requests proceed to the upstream
